@@ -49,6 +49,16 @@ def main() -> int:
         return ctx.finish(prog.consulted)
     except AnalysisError as exc:
         print(f'ANALYSIS-ERROR property={prop}: {exc}')
+        if any(not i.ok for i in ctx.instances):
+            # definite rule violations were already established before the analysis stopped: report them
+            # (floors cannot be enforced on a partial run; known findings still apply)
+            ctx.floors = {r: 0 for r in ctx.floors}
+            ctx.notes.append(f'partial run: analysis stopped with: {exc}')
+            try:
+                rc = ctx.finish(prog.consulted if 'prog' in locals() else [])
+            except AnalysisError:
+                return 2
+            return 1 if rc == 1 else 2
         return 2
     except Exception:  # noqa: BLE001 - a crash of the checker is never a verdict
         traceback.print_exc()
